@@ -452,6 +452,11 @@ func (g *c16Gen) next() c16Op {
 			if g.r.Intn(2) == 0 {
 				ty = g.goodType()
 			}
+			if rec.exp != nil && *rec.exp >= g.now && g.r.Intn(4) == 0 { // same expiration, maybe another type
+				same := *rec.exp
+				sp, vr := g.sp()
+				return e.opAdd(g.caller(rec.name), rec.acct, rec.name, rec.val, ty, &same, sp, vr)
+			}
 			sp, vr := g.sp()
 			return e.opAdd(g.caller(rec.name), rec.acct, rec.name, rec.val, ty, g.newExp(), sp, vr)
 		}
@@ -536,6 +541,52 @@ func (g *c16Gen) scenario() []c16Op {
 	return ops
 }
 
+// second directed opening: an identical attribute re-added with the SAME expiration (only the
+// type changes, or nothing at all), so that the old and the new queue entry are one and the same
+// store key; then the block time passes that expiration and the attribute must be gone.
+// Variants: 0 one re-add with another type; 1 re-added twice; 2 re-add then update-expiration to
+// the same time; 3 re-add under a non-canonical spelling of the name.
+func (g *c16Gen) scenarioSameExp(variant int) []c16Op {
+	e := g.e
+	n := g.pick(e.nameIDs)
+	ow := g.pick([]int64{1, 2, 3})
+	a := g.pick(e.targets)
+	v := int64(g.r.Intn(3) + 1)
+	e1 := g.now + int64(g.r.Intn(6)+1)
+	g.expPool = append(g.expPool, e1)
+	t1 := g.pick(c16GoodTypes)
+	t2 := g.pick(c16GoodTypes)
+	for t2 == t1 {
+		t2 = g.pick(c16GoodTypes)
+	}
+	ops := []c16Op{e.opBind(n, ow), e.opAdd(ow, a, n, v, t1, &e1, 0, 0)}
+	if g.r.Intn(3) == 0 { // some time passes first, not reaching e1
+		ops = append(ops, e.opBlock(int64(g.r.Intn(int(e1-g.now)))))
+	}
+	switch variant {
+	case 1:
+		ops = append(ops, e.opAdd(ow, a, n, v, t2, &e1, 0, 0), e.opAdd(ow, a, n, v, t1, &e1, 0, 0))
+	case 2:
+		ops = append(ops, e.opAdd(ow, a, n, v, t2, &e1, 0, 0), e.opUpdateExp(ow, a, n, v, &e1, 0, 0))
+	case 3:
+		ops = append(ops, e.opAdd(ow, a, n, v, t2, &e1, int64(g.r.Intn(4)+1), g.r.Intn(54)))
+	default:
+		ops = append(ops, e.opAdd(ow, a, n, v, t2, &e1, 0, 0))
+	}
+	// the dts are relative to the block time at which each block op runs
+	elapsed := int64(0)
+	for _, o := range ops {
+		elapsed += o.dt
+	}
+	left := e1 - g.now - elapsed
+	if g.r.Intn(2) == 0 { // first land exactly on e1 (not due yet), then one second later
+		ops = append(ops, e.opBlock(left), e.opBlock(1))
+	} else {
+		ops = append(ops, e.opBlock(left+1+int64(g.r.Intn(3))))
+	}
+	return ops
+}
+
 func TestC16(t *testing.T) {
 	r := newRand("C16")
 	w := NewCaseWriter("C16", "PV.Corr.C16", "check_all", 250)
@@ -572,6 +623,12 @@ func TestC16(t *testing.T) {
 		if r.Intn(3) == 0 {
 			pending = g.scenario()
 		}
+		if h%5 == 1 { // a fixed fifth of the histories: identical re-add with the same expiration
+			pending = g.scenarioSameExp((h / 5) % 4)
+			w.Count("scripted_same_expiration_readd")
+			w.Count(fmt.Sprintf("scripted_same_expiration_readd_variant_%d", (h/5)%4))
+		}
+		sameExpKeys := map[[3]int64]int64{} // keys re-added with an unchanged expiration -> that time
 		var steps []string
 		var descs []map[string]any
 		nontrivial := false
@@ -624,6 +681,11 @@ func TestC16(t *testing.T) {
 			case "add":
 				if ok {
 					for k, rec := range curByKey {
+						if old, was := prevByKey[k]; was && old.exp != nil && c16SameExp(old.exp, rec.exp) && op.term == c16AddTermFor(op, k) {
+							w.Count("readd_identical_same_expiration")
+							sameExpKeys[k] = *old.exp
+							nontrivial = true
+						}
 						if old, was := prevByKey[k]; was && (old.typ != rec.typ || !c16SameExp(old.exp, rec.exp)) {
 							w.Count("readd_identical_changed")
 							nontrivial = true
@@ -646,6 +708,18 @@ func TestC16(t *testing.T) {
 				for k := range prevByKey {
 					if _, still := curByKey[k]; !still {
 						gone++
+					}
+				}
+				for k, at := range sameExpKeys {
+					if _, was := prevByKey[k]; !was {
+						delete(sameExpKeys, k)
+						continue
+					}
+					if cr, still := curByKey[k]; !still {
+						w.Count("same_expiration_readd_then_expired")
+						delete(sameExpKeys, k)
+					} else if cr.exp == nil || *cr.exp != at {
+						delete(sameExpKeys, k)
 					}
 				}
 				if gone > 0 {
@@ -689,6 +763,15 @@ func TestC16(t *testing.T) {
 		}
 	}
 	w.Flush(t)
+}
+
+// c16AddTermFor: the add op's own key (only the record the op addressed counts as re-added)
+func c16AddTermFor(op c16Op, k [3]int64) string {
+	d := op.desc
+	if d["account"] == k[0] && d["name"] == k[1] && d["value"] == k[2] {
+		return op.term
+	}
+	return ""
 }
 
 func c16SameExp(a, b *int64) bool {
